@@ -187,6 +187,17 @@ CHECKS = {
              "exactly the locations of the scenarios with failed or error-class final status in run order, FILE must be absent "
              "when there are none; run 2 with @FILE must start exactly those scenarios and skip all others.",
         note="Trusted: model statuses after run 1. Hook faults are not re-injected in run 2."),
+    "C18": dict(
+        level="exploration", design="DESIGN.md 5/C18",
+        technique="property-based testing with sentinel streams: exhaustive outcome sequences <= 3 x all 8 capture-switch combinations "
+                  "+ random programs (step-hook faults, nested steps, logging level/filter), unique output markers per scenario/step/"
+                  "kind as oracle, CLI sample on real file descriptors",
+        text="Steps and step hooks write unique markers to stdout, stderr and logging; sentinel objects stand in for the real "
+             "sys.stdout / sys.stderr. Checked: no marker of a captured kind reaches a sentinel; a failing step's report contains all "
+             "markers of its scenario up to that step and none of other scenarios; output of passing scenarios is not shown; at every "
+             "formatter.result callback and scenario hook (also after failing, raising, interrupting steps) sys.stdout/stderr are the "
+             "sentinels; root logger level/handlers equal before a scenario and after its teardown; uncaptured kinds pass through in order.",
+        note="Trusted: marker bookkeeping in vf/props/c18.py, vf/refmodel.py (which steps run). Writes bypassing sys.stdout are not seen."),
 }
 
 PENDING_REASON = "not yet claimed in this revision: the check for this property is still under construction (see DESIGN.md 5)"
